@@ -138,7 +138,9 @@ func (s *attrStore) Attrs(id uint64) (m map[string]interface{}, err error) {
 	// Add to cache.
 	s.attrCache.Set(id, m)
 
-	return m, nil
+	// Return a copy, as on a cache hit, so that a caller cannot modify the
+	// cached map or the shared emptyMap.
+	return cloneAttrs(m), nil
 }
 
 // SetAttrs sets attribute values for a given ID.
@@ -343,6 +345,15 @@ func btou64(b []byte) uint64 { return binary.BigEndian.Uint64(b) }
 
 // emptyMap is a reusable map that contains no keys.
 var emptyMap = make(map[string]interface{})
+
+// cloneAttrs returns a shallow copy of m.
+func cloneAttrs(m map[string]interface{}) map[string]interface{} {
+	other := make(map[string]interface{}, len(m))
+	for k, v := range m {
+		other[k] = v
+	}
+	return other
+}
 
 // mapContains returns true if all keys & values of subset are in m.
 func mapContains(m, subset map[string]interface{}) bool {
